@@ -119,4 +119,11 @@ func RunAll(run *hlib.Run, prop string, sigPrefixes []string, n int) {
 			}
 		}
 	}
+	if prop == "C12" && run.ReplayLines() == nil {
+		rounds := 28
+		if run.Tier == "thorough" {
+			rounds = 600
+		}
+		CloseRace(run, rounds, 32)
+	}
 }
